@@ -534,7 +534,7 @@ Proof.
     apply (quote_rune_not_eol ch false (m_ansi m)).
     apply Bool.orb_true_iff in Ei. destruct Ei as [Ei|Ei]; rewrite Ei;
       repeat rewrite Bool.orb_true_r; reflexivity. }
-  apply FIN; [apply steps_refl|reflexivity|reflexivity].
+  destruct (is_token_number c ch); apply FIN; [apply steps_refl|reflexivity|reflexivity|apply steps_refl|reflexivity|reflexivity].
 Qed.
 
 Lemma body_ok_after_skip : forall s s' t h' s'',
@@ -841,7 +841,7 @@ Qed.
 Definition cfg0 : cfg :=
   mkCfg (mkTokc 57346 57347 57348 57349 57351 57353 57354 57355 57356 57357 57358 57359 57360 57361
                 57501 57502 57503 57496 57497 57498 57499 57500)
-        [([83;69;76;69;67;84], 57362%Z); ([70;82;79;77], 57363%Z)] [] [].
+        [([83;69;76;69;67;84], 57362%Z); ([70;82;79;77], 57363%Z)] [] [] (57344, 166).
 Definition modes0 : modes := mkModes false false.
 
 (* without the side condition on what follows, the closing quotation mark and a following one are a
@@ -860,13 +860,16 @@ Qed.
 Lemma unescape_escape_any_quote_fails : ~ (forall s q, unescape_string (escape_string s) q = s).
 Proof. intros H. specialize (H [97; 34] 34). vm_compute in H. discriminate. Qed.
 
-(* a token that is not recognised by any case of Scan carries its code point as token number ... *)
-Lemma default_token_is_code_point : forall c m h r ln cl ch,
+(* a character that no case of Scan recognises carries its code point as token number, unless the code
+   point is one of the numbers goyacc gave to the tokens of the grammar (a private use area): then it is
+   UnknownCharacter, a number no grammar token has (repair of print-reparse:token-number-code-point) *)
+Lemma default_token : forall c m h r ln cl ch,
   is_space ch = false ->
   (ch =? 63) = false -> (ch =? 58) = false -> is_decimal ch = false -> is_ident_rune c ch = false ->
   is_operator_rune ch = false -> (ch =? 64) = false -> (ch =? 36) = false -> (ch =? 47) = false ->
   (ch =? 45) = false -> (ch =? 39) = false -> (ch =? 34) = false -> (ch =? 96) = false ->
-  scan_body c m h (mkP (ch :: r) ln cl) = BTok (mkTok (Z.of_N ch) [ch] false 0 ln (cl + 1) None) h (mkP r ln (cl + 1)).
+  scan_body c m h (mkP (ch :: r) ln cl)
+  = BTok (mkTok (if is_token_number c ch then k_unknown_char else Z.of_N ch) [ch] false 0 ln (cl + 1) None) h (mkP r ln (cl + 1)).
 Proof.
   intros c m h r ln cl ch Hsp H63 H58 Hd Hi Ho H64 H36 H47 H45 H39 H34 H96.
   assert (H13 : (ch =? 13) = false).
@@ -878,21 +881,25 @@ Proof.
   unfold next. cbn [p_rest p_line p_col]. rewrite H13, H10.
   cbv beta iota zeta. cbn [p_rest p_line p_col].
   rewrite H63, H58, Hd, Hi, Ho, H64, H36, H47, H45, H39, H34, H96.
-  rewrite ?Bool.andb_false_r. cbn [andb orb]. reflexivity.
+  rewrite ?Bool.andb_false_r. cbn [andb orb]. destruct (is_token_number c ch); reflexivity.
 Qed.
 
-(* ... so a code point that equals the number goyacc gave to a token name is handed to the parser as
-   that token: here U+E00B alone is an ENVIRONMENT_VARIABLE token although the text has no @% *)
-Definition envvar_token_has_sigil (c : cfg) : Prop :=
-  forall m src ts n, tokens c m src = Some (ts, n) ->
-    Forall (fun t => t_kind t = k_envvar (c_tok c) -> exists pre post, src = pre ++ 64 :: 37 :: post) ts.
-
-Lemma envvar_token_has_sigil_fails : ~ envvar_token_has_sigil cfg0.
+(* the kind of such a token is never one of the grammar's token numbers *)
+Lemma default_token_kind_not_a_token_number : forall c ch,
+  let k := if is_token_number c ch then k_unknown_char else Z.of_N ch in
+  (snd (c_private c) <= 1056768)%N -> (fst (c_private c) <= 57344)%N ->
+  ~ (Z.of_N (fst (c_private c)) <= k < Z.of_N (fst (c_private c) + snd (c_private c)))%Z.
 Proof.
-  intros H. specialize (H modes0 [57355] _ _ eq_refl).
-  inversion H as [|t ts Ht _]; subst. destruct (Ht eq_refl) as (pre & post & E).
-  destruct pre as [|x pre]; [discriminate|]. destruct pre; discriminate.
+  intros c ch k Hn Hlo. subst k. unfold is_token_number, k_unknown_char.
+  destruct (fst (c_private c) <=? ch)%N eqn:E1; destruct (ch <? fst (c_private c) + snd (c_private c))%N eqn:E2; cbn [andb];
+    try apply N.leb_le in E1; try apply N.leb_gt in E1; try apply N.ltb_lt in E2; try apply N.ltb_ge in E2; lia.
 Qed.
+
+(* U+E00B (= 57355, the number goyacc gave ENVIRONMENT_VARIABLE) alone is no longer an
+   ENVIRONMENT_VARIABLE token *)
+Lemma example_token_number_char :
+  tokens cfg0 modes0 [57355] = Some ([mkTok k_unknown_char [57355] false 0 1 1 None; mkTok k_eof [65533] false 0 1 1 None], 0%N).
+Proof. vm_compute. reflexivity. Qed.
 
 (* non-vacuity: concrete runs of the definitions the theorems speak about *)
 Lemma example_tokens :
